@@ -170,6 +170,8 @@ enum Frame {
     Straight,
     Loop,
     Sub,
+    /// as Sub, the subroutine standing after the `.test` block (shared code outside the test)
+    SubOutside,
 }
 
 impl Frame {
@@ -178,6 +180,7 @@ impl Frame {
             Frame::Straight => "straight",
             Frame::Loop => "loop",
             Frame::Sub => "sub",
+            Frame::SubOutside => "sub-outside-test",
         }
     }
     fn from_name(s: &str) -> Option<Frame> {
@@ -185,6 +188,7 @@ impl Frame {
             "straight" => Some(Frame::Straight),
             "loop" => Some(Frame::Loop),
             "sub" => Some(Frame::Sub),
+            "sub-outside-test" => Some(Frame::SubOutside),
             _ => None,
         }
     }
@@ -195,6 +199,8 @@ enum Item {
     Op(Op),
     Label(&'static str),
     Gap(String),
+    /// the `.test` block ends here; what follows stands after it
+    EndTest,
 }
 
 struct Prog {
@@ -238,13 +244,16 @@ fn build_items(frame: Frame, body: &[usize]) -> Vec<Item> {
             it.push(Item::Gap("before-brk".into()));
             it.push(Item::Op(Op::Brk));
         }
-        Frame::Sub => {
+        Frame::Sub | Frame::SubOutside => {
             it.push(Item::Gap("before-jsr1".into()));
             it.push(Item::Op(Op::Jsr("s")));
             it.push(Item::Gap("before-jsr2".into()));
             it.push(Item::Op(Op::Jsr("s")));
             it.push(Item::Gap("before-brk".into()));
             it.push(Item::Op(Op::Brk));
+            if frame == Frame::SubOutside {
+                it.push(Item::EndTest);
+            }
             it.push(Item::Label("s"));
             for (i, b) in body.iter().enumerate() {
                 it.push(Item::Gap(format!("sub-before-b{}", i)));
@@ -279,6 +288,7 @@ fn layout(items: Vec<Item>, base: u16) -> Prog {
                 gap_at.insert(addr, gaps.len());
                 gaps.push((name.clone(), addr));
             }
+            Item::EndTest => {}
         }
     }
     Prog { items, ops, by_addr, labels, gaps, gap_at }
@@ -587,8 +597,13 @@ fn render_test(
     }
     lines.push(format!(".test \"{}\" {{", name));
     let mut gap_idx = 0;
+    let mut test_open = true;
     for it in &p.items {
         match it {
+            Item::EndTest => {
+                lines.push("}".into());
+                test_open = false;
+            }
             Item::Op(op) => lines.push(format!("    {}", op.text())),
             Item::Label(l) => lines.push(format!("{}:", l)),
             Item::Gap(_) => {
@@ -602,7 +617,9 @@ fn render_test(
             }
         }
     }
-    lines.push("}".into());
+    if test_open {
+        lines.push("}".into());
+    }
     if wrap.is_some() {
         lines.push("}".into());
     }
@@ -1553,7 +1570,7 @@ pub fn run(ctx: &Ctx, replay: Option<&Value>) -> i32 {
 
     // ---- frames, in-process ---------------------------------------------------------------
     let mut units: Vec<(Frame, Vec<usize>)> = vec![];
-    for frame in [Frame::Straight, Frame::Loop, Frame::Sub] {
+    for frame in [Frame::Straight, Frame::Loop, Frame::Sub, Frame::SubOutside] {
         for b in bodies(k) {
             units.push((frame, b));
         }
